@@ -310,6 +310,46 @@ func main() {
 	}
 	fmt.Fprintf(&h, "Definition dynamic_call_sites : list str := %s.\n", coqList(dyn))
 	writeIfChanged(filepath.Join(out, "Handlers.v"), h.String())
+
+	// G7: every range over a map and every other source of run-to-run variation in code reachable from the two
+	// conversion endpoints (SSA reachability; hash = enclosing if-conditions + printed statement)
+	var g strings.Builder
+	g.WriteString("(* GENERATED by gossa (SSA reachability from the conversion endpoints) via go/cmd/translate - do not edit. *)\n")
+	g.WriteString("From Coq Require Import List Strings.Byte.\nFrom IGP Require Import Base.Str.\nImport ListNotations.\n\n")
+	seenSite := map[string]bool{}
+	var sites, nondet []string
+	seenN := map[string]bool{}
+	siteErr := ""
+	for _, root := range []string{"endpoint_tab", "endpoint_vis"} {
+		ss, ok := ssaSetsByRoot[root]
+		if !ok || ss.Error != "" {
+			siteErr = "no SSA inventory for " + root + " " + ss.Error
+			continue
+		}
+		for _, r := range ss.MapRanges {
+			k := fmt.Sprintf("(%s, %d, %s)", coqStr(r.Func), r.Ord, coqStr(r.Hash))
+			if !seenSite[k] {
+				seenSite[k] = true
+				sites = append(sites, k+" (* "+strings.ReplaceAll(r.Head, "*)", "* )")+" *)")
+			}
+		}
+		for _, n := range ss.Nondet {
+			if !seenN[n] {
+				seenN[n] = true
+				nondet = append(nondet, coqStr(n))
+			}
+		}
+	}
+	sort.Strings(sites)
+	sort.Strings(nondet)
+	g.WriteString("Definition map_range_sites : list (str * nat * str) := [\n  " + strings.Join(sites, ";\n  ") + "].\n")
+	fmt.Fprintf(&g, "Definition nondet_sources : list str := %s.\n", coqList(nondet))
+	var se []string
+	if siteErr != "" {
+		se = append(se, coqStr(siteErr))
+	}
+	fmt.Fprintf(&g, "Definition sites_unsupported : list str := %s.\n", coqList(se))
+	writeIfChanged(filepath.Join(out, "Sites.v"), g.String())
 }
 
 func writeIfChanged(path, content string) {
